@@ -5,6 +5,7 @@ package proch
 
 import (
 	"context"
+	"crypto/ecdsa"
 	"fmt"
 	"runtime"
 	"runtime/debug"
@@ -13,6 +14,7 @@ import (
 
 	"github.com/alephium/wormhole-fork/node/pkg/common"
 	"github.com/alephium/wormhole-fork/node/pkg/db"
+	"github.com/alephium/wormhole-fork/node/pkg/ecdsasigner"
 	"github.com/alephium/wormhole-fork/node/pkg/processor"
 	gossipv1 "github.com/alephium/wormhole-fork/node/pkg/proto/gossip/v1"
 	"github.com/alephium/wormhole-fork/node/pkg/reporter"
@@ -36,6 +38,8 @@ type World struct {
 	// view and the wipe between executions use point operations on them. A full scan for any other
 	// key is done periodically (FullScan).
 	Keys []string
+	// KMSPath: nodes created from now on sign through the Cloud-KMS hand-over (DER -> parseSignature -> appendV)
+	KMSPath bool
 }
 
 func NewWorld() *World {
@@ -97,6 +101,33 @@ type Out struct {
 	Loopback int // loopbacks captured in this step
 	Blocked  bool // StepFullQueue: the handler was parked in a channel send
 }
+
+// ShortScalarSeqs searches message sequence numbers (same fixture otherwise) whose deterministic signature by
+// key has an r, respectively an s, that is shorter than 32 bytes (leading zero byte): the encodings in which
+// the DER form and the fixed-width form differ. About one digest in 128 each.
+func ShortScalarSeqs(key int, mk func(seq uint64) Msg, want int) (shortR, shortS, plain []uint64) {
+	for seq := uint64(1); seq < 20000 && (len(shortR) < want || len(shortS) < want); seq++ {
+		sig := keys.Sign(key, mk(seq).OwnDigest())
+		switch {
+		case sig[0] == 0 && len(shortR) < want:
+			shortR = append(shortR, seq)
+		case sig[32] == 0 && len(shortS) < want:
+			shortS = append(shortS, seq)
+		case len(plain) < want:
+			plain = append(plain, seq)
+		}
+	}
+	return
+}
+
+// KMSPathSigner signs like the guardian's Cloud KMS signer: the signature travels DER-encoded and is brought
+// into the 65-byte form by the real parseSignature / appendV of pkg/ecdsasigner.
+type KMSPathSigner struct{ I int }
+
+func (s KMSPathSigner) Sign(digest []byte) ([]byte, error) {
+	return ecdsasigner.VerifKMSPathSign(keys.Key(s.I), digest)
+}
+func (s KMSPathSigner) PublicKey() ecdsa.PublicKey { return keys.Key(s.I).PublicKey }
 
 // NewNodePrivateDB is NewNode over a store of its own, which the harness may close (CloseDB) to make every
 // later write and lookup fail with the store's own error.
@@ -163,10 +194,14 @@ func (w *World) build(ownKey int, reqCap int, d *db.Database, private bool) *Nod
 	}()
 	n.unsub = func() { rep.Unsubscribe(sub.ClientId); close(msgC) }
 	n.LockC, n.SetC, n.InjectC, n.SignedInC = make(chan *common.MessagePublication), make(chan *common.GuardianSet), make(chan *vaa.VAA), make(chan *gossipv1.SignedVAAWithQuorum)
+	var signer ecdsasigner.ECDSASigner = keys.Signer{I: ownKey}
+	if w.KMSPath {
+		signer = KMSPathSigner{I: ownKey}
+	}
 	n.P = processor.NewProcessor(w.Ctx, d,
 		n.LockC, n.SetC, n.SendC, n.ObsvC, n.ObsvReqC,
 		n.InjectC, n.SignedInC,
-		keys.Signer{I: ownKey}, n.GST, rep, nil, GovChain, GovAddr)
+		signer, n.GST, rep, nil, GovChain, GovAddr)
 	return n
 }
 
